@@ -192,7 +192,9 @@ func toBatch(b Batch) m3thrift.MetricBatch {
 }
 
 func eqTags(a, b []m3thrift.MetricTag) bool {
-	if len(a) != len(b) {
+	// an optional list that is set but empty is not the same value as an unset one (IsSetTags /
+	// IsSetCommonTags differ), and the wire formats keep them apart
+	if len(a) != len(b) || (a == nil) != (b == nil) {
 		return false
 	}
 	for i := range a {
